@@ -3,8 +3,8 @@ import BarterModel.Driver.EngineCommon
 each execution link receives during the command's tick (`rx*`), what the command reports as sent /
 failed (`cmd_c_*`, `cmd_o_*`), and every instrument's order table afterwards (`ord*`: orders of
 instruments outside the filter untouched, addressed orders of matching instruments cancel-in-flight).
-Positions and prices are observed through later `close_positions none` commands. The spec view is the
+Positions and prices of every instrument are printed after every tick (`pos*`, `price*`: a command leaves them untouched). The spec view is the
 model restricted to those keys (the model is proved to satisfy the property in Props/C19.lean). -/
 open BarterModel.Driver BarterModel.Driver.EngineCommon
 def main (args : List String) : IO UInt32 :=
-  runMain model (restrict ["rx", "cmd", "ord", "panic", "bad-op"] model) args
+  runMain model (restrict ["rx", "cmd", "ord", "pos", "price", "panic", "bad-op"] model) args
